@@ -416,4 +416,40 @@ def runMethod {W : Type} (ext : World W) (body : Stmt) (s : St W) : Out × St W 
   | (.normal, s1) => (.ret .none, s1)
   | r => r
 
+/-! ### `len(xs)` compared with 0 / 1, in the normal forms `simp` leaves (for the evaluation macros of the bridges: `len(xs) != 0`,
+`len(xs) == 0`, `len(xs) > 0`, `len(xs) >= 1`, `len(xs) == 1`, `len(xs) > 1` on a list of known shape) -/
+section LenArith
+variable (k : Nat)
+theorem len1_ne_zero : (((k : Int) + 1) != 0) = true := by
+  have : ¬ ((k : Int) + 1 = 0) := by omega
+  simpa [bne_iff_ne] using this
+theorem len1_beq_zero : (((k : Int) + 1) == 0) = false := by
+  have : ¬ ((k : Int) + 1 = 0) := by omega
+  simpa using this
+theorem len1_eq_zero : (((k : Int) + 1) = 0) = False := by
+  have : ¬ ((k : Int) + 1 = 0) := by omega
+  simpa using this
+theorem len1_pos : ((0 : Int) < (k : Int) + 1) = True := by
+  have : (0 : Int) < (k : Int) + 1 := by omega
+  simpa using this
+theorem len1_ge_one : ((1 : Int) ≤ (k : Int) + 1) = True := by
+  have : (1 : Int) ≤ (k : Int) + 1 := by omega
+  simpa using this
+theorem len2_ge_one : ((1 : Int) ≤ (k : Int) + 1 + 1) = True := by
+  have : (1 : Int) ≤ (k : Int) + 1 + 1 := by omega
+  simpa using this
+theorem len2_eq_one : (((k : Int) + 1 + 1) = 1) = False := by
+  have : ¬ ((k : Int) + 1 + 1 = 1) := by omega
+  simpa using this
+theorem len2_beq_one : (((k : Int) + 1 + 1) == 1) = false := by
+  have : ¬ ((k : Int) + 1 + 1 = 1) := by omega
+  simpa using this
+theorem len2_bne_one : (((k : Int) + 1 + 1) != 1) = true := by
+  have : ¬ ((k : Int) + 1 + 1 = 1) := by omega
+  simpa [bne_iff_ne] using this
+theorem len2_gt_one : ((1 : Int) < (k : Int) + 1 + 1) = True := by
+  have : (1 : Int) < (k : Int) + 1 + 1 := by omega
+  simpa using this
+end LenArith
+
 end Haiway.MiniPy
